@@ -171,6 +171,10 @@ func (fr *Frame) exec(st *State, ins ssa.Instruction) {
 		v := fr.val(x.X)
 		nv := fr.setVal(st, x, u.makeIface(st, v.T, x.X.Type()))
 		nv.DynTyp = x.X.Type()
+		if v.Sort == SRef {
+			inner := v
+			nv.Dyn = &inner
+		}
 		fr.vals[x] = nv
 	case *ssa.ChangeInterface:
 		fr.setVal(st, x, fr.val(x.X).T)
